@@ -155,7 +155,9 @@ def r1_sinks(ctx, F):
             proof = "K4 handle flag tested"
         # K5: first_layer_inode(N) where on every path N was upper or was copied up
         elif kind == "tuple0" and base[0] == "C" and base[1].endswith("OverlayInode>::first_layer_inode"):
-            paths = c18.path_facts(b, v, c.bb)
+            # the facts must hold where first_layer_inode() is CALLED (a pair fetched before the copy-up is stale)
+            at = base[4][1] if isinstance(base[4], tuple) and base[4][0] == b.key else c.bb
+            paths = c18.path_facts(b, v, at)
             bad = []
             for fs in paths:
                 up = any(t.startswith("OverlayInode::in_upper_layer(") and l != 0 for (t, l) in fs)
@@ -163,7 +165,7 @@ def r1_sinks(ctx, F):
                 if not (up or cu):
                     bad.append([t[:60] for (t, l) in fs][-3:])
             if paths and not bad:
-                proof = "K5 upper or copied up on all %d paths" % len(paths)
+                proof = "K5 upper or copied up on all %d paths to the first_layer_inode call" % len(paths)
         # K6: the RealInode just created under an upper parent (copy_regfile_up)
         if proof is None and b.name == "copy_regfile_up" and c.name == "write":
             if created_upper_only(F, b, c):
